@@ -153,6 +153,7 @@ class RankSim:
         self.tl_records: Dict[int, List[int]] = {s: [] for s in self.stream_ids}    # cudaEventRecord call times
         self.tl_waits: Dict[int, List[Any]] = {s: [] for s in self.stream_ids}      # (cudaStreamWaitEvent call time, done)
         self.tl_syncs: List[Any] = []      # (awaited stream or None for all, blocking call's start, its end)
+        self.last_kernel_ev: Dict[int, Any] = {}     # stream -> the event of the activity simulated last on it
         self.second_thread = False
         self.main_streams: List[int] = []
         # per-rank vocabulary (ranks differ)
@@ -251,7 +252,9 @@ class RankSim:
             else:
                 args["grid"] = [1, 1, 1]
                 args["registers per thread"] = 32
-            self.x(dcat, dname, self.dev_pid, stream, kstart, kdur, args)
+            self.last_kernel_ev[stream] = self.x(dcat, dname, self.dev_pid, stream, kstart, kdur, args)
+        else:
+            self.last_kernel_ev.pop(stream, None)
         return t + d
 
     def fit_around_syncs(self, stream: int, kstart: int, kdur: int, move: bool):
@@ -301,6 +304,18 @@ class RankSim:
             name, waits = "cudaStreamSynchronize", [rng.choice(streams)]
         else:
             name, waits = "cudaDeviceSynchronize", list(self.stream_ids)
+        if len(waits) > 1 and not self.second_thread and not self.cfg.event_rate and rng.random() < 0.4:
+            # an exact tie for the longest path: the activities still running on several streams when the device-wide
+            # call is made all end in the same microsecond
+            run = [s for s in waits if self.last_end[s] > t and s in self.last_kernel_ev
+                   and self.last_kernel_ev[s]["ts"] + self.last_kernel_ev[s]["dur"] == self.last_end[s]]
+            if len(run) >= 2:
+                target = max(self.last_end[s] for s in run)
+                for s in run:
+                    e = self.last_kernel_ev[s]
+                    self.tl_kernels[s] = [(a, b, target) if (b, c) == (e["ts"], e["ts"] + e["dur"]) else (a, b, c) for (a, b, c) in self.tl_kernels[s]]
+                    e["dur"] = target - e["ts"]
+                    self.last_end[s] = target
         busy_until = max([self.last_end[s] for s in waits] + [t])
         end = max(t + self.dur(), busy_until + self.g * rng.choice([0, 0, 1]))
         self.x("cuda_runtime", name, self.host_pid, tid, t, end - t,
